@@ -800,6 +800,10 @@ type serSim struct {
 	sparse []*Inst         // originals; driven by Ingest+Modify with their own remember flags
 	twin   map[*Inst]*Inst // original -> its newest restored copy
 	stale  map[string][]byte
+	// serOnly, when set, selects the instances (by label) that serializeAll works on: the
+	// many-tree histories serialise two of the instances each (the driver's byte-list models
+	// need seconds per replay of a stream of tens of kilobytes)
+	serOnly func(label string) bool
 }
 
 func newSerSim(g *Gen, rows []uint8, sparseRows []uint8) *serSim {
@@ -940,6 +944,12 @@ func (x *serSim) serializeAll(allCuts bool) {
 		return &Inst{label: parts[0] + ":" + parts[1] + "r:" + parts[2], acc: q, mp: q}
 	}
 	for _, in := range orig {
+		if x.serOnly != nil && !x.serOnly(in.label) {
+			if t := x.twin[in]; t != nil {
+				insts = append(insts, t)
+			}
+			continue
+		}
 		if in.pol != nil {
 			if q := s.serialPollard(in, allCuts); q != nil {
 				x.twin[in] = &Inst{label: "pollardR", acc: q, pol: q}
@@ -960,6 +970,9 @@ func (x *serSim) serializeAll(allCuts bool) {
 	}
 	s.insts = insts
 	for _, in := range x.sparse {
+		if x.serOnly != nil && !x.serOnly(in.label) {
+			continue
+		}
 		q, b := s.serialMap(in, allCuts, x.stale[in.label])
 		if q != nil {
 			x.twin[in] = twinOf(in, q)
@@ -999,6 +1012,12 @@ func famSerial(g *Gen, tier string, shard, nshards int) {
 	}
 	for h := 0; h < nHist; h++ {
 		rows := rowConfigs[g.Intn(len(rowConfigs))]
+		// one history in six lives in a forest of many trees (9 or more roots, rows >= 9; counts
+		// and record numbers beyond 255 in every stream)
+		if h%6 == 5 {
+			famSerialMany(g, shard*(nHist/6)+h/6, tier)
+			continue
+		}
 		x := newSerSim(g, rows, []uint8{rows[0], []uint8{0, 63, 7}[g.Intn(3)]})
 		s := x.Sim
 		nBlocks := 3 + g.Intn(maxBlocks)
@@ -1120,4 +1139,68 @@ func famSerialExh(g *Gen, tier string, shard, nshards int) {
 			}
 		}
 	}
+}
+
+// famSerialMany: a short history in a many-tree forest of 511 or 767 leaves (thorough: also
+// 509, 1021, 1022, 1023), so that every stream carries hundreds to thousands of records (pointer
+// forest: ~2n nodes of 34 bytes; map forest: up to n cached leaves of 40 bytes and ~2n nodes of
+// 41 bytes; the sparse forest remembers a third of the leaves): counts beyond 255, positions on
+// rows 9 and 10, a pointer structure 9..10 levels deep.  Blocks delete at the right edge,
+// spread over the forest, all but one leaf of a big tree, or whole small trees.  One or two of the
+// instances (rotating with k: pointer forest + sparse map forest, full map forest, partial map
+// forest) are serialised after the second block — the Lean models work on byte lists
+// and association lists and need seconds per replay of such a stream, which is also why bigger
+// forests (a 16-bit count needs 65536 records) are out of reach here; truncation points and sink
+// offsets are sampled by cutPoints (about 48 offsets per stream of this size) and the driver
+// replays a sample of them on the model while the oracle judges all of them.  The restored
+// twins are driven along and compared after every block and undo.
+func famSerialMany(g *Gen, k int, tier string) {
+	rows := rowConfigs[k%4] // one TotalRows setting: 63, 0, 50, 3
+	x := newSerSim(g, rows, []uint8{[]uint8{0, 63, 7}[k%3]})
+	s := x.Sim
+	n := 511
+	switch k % 3 {
+	case 0:
+		withSparse := (k/3)%2 == 1
+		if !withSparse {
+			n = 767
+		}
+		x.serOnly = func(l string) bool { return l == "pollard" || (withSparse && strings.HasPrefix(l, "map:S:")) }
+	case 1:
+		x.serOnly = func(l string) bool { return strings.HasPrefix(l, "map:F:") }
+	default:
+		x.serOnly = func(l string) bool { return strings.HasPrefix(l, "map:P:") }
+	}
+	if tier == "thorough" {
+		n = []int{511, 767, 1022, 1023, 509, 1021}[(k/3)%6]
+	}
+	x.block(nil, n)
+	x.obsRoots()
+	nBlocks := 2 + g.Intn(3)
+	for b := 0; b < nBlocks; b++ {
+		style := manyTreeStyleHeavy(g)
+		if b == 0 && k%3 == 1 {
+			style = 2
+		}
+		nAdds := manyTreeAdds(g)
+		if style == 3 {
+			nAdds = 1 + g.Intn(4)
+		}
+		x.block(manyTreeDeletions(g, s.alive, style), nAdds)
+		if g.Intn(3) == 0 {
+			x.prune()
+		}
+		x.obsRoots()
+		x.evolve()
+		if b == 0 {
+			x.serializeAll(false)
+			x.obsRoots()
+		}
+		if len(s.hist) > 1 && g.Intn(3) == 0 {
+			x.undo()
+			x.obsRoots()
+			x.evolve()
+		}
+	}
+	s.observeAllSampled()
 }
